@@ -88,7 +88,16 @@ def parse_terse(out):
             if m6:
                 r["checks"] = (int(m6.group(1)), int(m6.group(2)))
     for r in res.values():
-        r["text"] = "\n".join(x for x in r["text"] if x.strip())[-3000:]
+        full = "\n".join(x for x in r["text"] if x.strip())
+        # a FAILED verdict is a refutation only if CBMC names a failed check; "CBMC failed" / out of memory / a crash is a tool limit
+        if r["status"] == "FAILED" and ("Failed Checks:" not in full or "CBMC failed" in full or "run out of memory" in full):
+            r["status"] = "TOOL-LIMIT (CBMC did not finish: %s)" % ("out of memory" if "memory" in full else "no failed check reported")
+        if r["status"] == "FAILED":
+            fc = [l for l in full.split("\n") if l.startswith("Failed Checks:")]
+            if fc and all("unwinding assertion" in l for l in fc):
+                # the loop bound of the harness is too small for this code: says nothing about the property
+                r["status"] = "TOOL-LIMIT (only unwinding assertions failed: the harness's loop bound does not cover this code)"
+        r["text"] = full[-3000:]
     return res
 
 
